@@ -1004,6 +1004,14 @@ class Analysis:
             p = args[0]
             base, path = (p[1][1], p[1][2]) if p[1][0] == "field" else (p[1], ())
             return self.read_cell(st, base, path, targs[0] if targs else None)
+        if fn in ("core::option::Option::<T>::unwrap", "core::option::Option::<T>::expect", "core::option::Option::<T>::unwrap_unchecked") and args:
+            # the payload of a modelled Option (that it IS Some where this is reached is the caller's proof or panic: rules.reachable_panics)
+            if args[0][0] == "O":
+                cs.no_effects = True
+                return args[0][1]
+            if args[0][0] == "A" and isinstance(args[0][1], tuple) and args[0][1][:2] == ("adt", "core::option::Option") and args[0][1][2] == 1 and len(args[0][2]) == 1:
+                cs.no_effects = True
+                return args[0][2][0]
         if fn == "core::option::Option::<T>::is_some":
             p = ptr()
             inner = self.read_cell(st, p[1], (), None) if p and not p[2].t else args[0]
